@@ -116,6 +116,27 @@ theorem has_of_find {c : LRU κ ν} {k : κ} {v : ν} (h : find c k = some v) : 
   | true => rfl
   | false => rw [find_none_of_not_has hh] at h; cases h
 
+/-! ### unfolding `step` -/
+
+theorem step_get_snd (cap : Nat) (c : LRU κ ν) (k : κ) : (step cap c (Op.get k)).2 = (get c k).2 := by
+  simp only [step]
+  cases get c k with
+  | mk o c' => cases o <;> rfl
+
+theorem step_get_fst (cap : Nat) (c : LRU κ ν) (k : κ) :
+    (step cap c (Op.get k)).1 = (match (get c k).1 with | some v => Obs.hit v | none => Obs.miss) := by
+  simp only [step]
+  cases get c k with
+  | mk o c' => cases o <;> rfl
+
+theorem step_set_some {cap : Nat} {c c' : LRU κ ν} {k : κ} {v : ν} (h : set cap c k v = some c') :
+    step cap c (Op.set k v) = (Obs.ok, c') := by
+  simp only [step, h]
+
+theorem step_set_none {cap : Nat} {c : LRU κ ν} {k : κ} {v : ν} (h : set cap c k v = none) :
+    step cap c (Op.set k v) = (Obs.err, c) := by
+  simp only [step, h]
+
 /-! ### keys stay unique (the list really represents a dict) -/
 
 def keys (c : LRU κ ν) : List κ := c.map (·.1)
@@ -183,7 +204,9 @@ theorem nodup_get {c : LRU κ ν} {k : κ} (hn : (keys c).Nodup) : (keys (get c 
     intro a ha b hb
     simp only [List.mem_singleton] at hb
     intro hab
-    exact not_mem_keys_erase hn (by rw [← hb, ← hab]; exact ha)
+    subst hb
+    subst hab
+    exact not_mem_keys_erase hn ha
 
 theorem nodup_set {cap : Nat} {c c' : LRU κ ν} {k : κ} {v : ν} (hn : (keys c).Nodup)
     (h : set cap c k v = some c') : (keys c').Nodup := by
@@ -203,16 +226,11 @@ theorem nodup_set {cap : Nat} {c c' : LRU κ ν} {k : κ} {v : ν} (hn : (keys c
 theorem nodup_step {cap : Nat} {c : LRU κ ν} (op : Op κ ν) (hn : (keys c).Nodup) :
     (keys (step cap c op).2).Nodup := by
   cases op with
-  | get k =>
-    have := nodup_get (k := k) hn
-    unfold step
-    cases hg : get c k with
-    | mk o c' => cases o <;> simp_all
+  | get k => rw [step_get_snd]; exact nodup_get hn
   | set k v =>
-    unfold step
     cases hs : set cap c k v with
-    | none => exact hn
-    | some c' => exact nodup_set hn hs
+    | none => rw [step_set_none hs]; exact hn
+    | some c' => rw [step_set_some hs]; exact nodup_set hn hs
   | has k => exact hn
   | len => exact hn
 
@@ -262,18 +280,11 @@ theorem length_set_le {cap : Nat} {c c' : LRU κ ν} {k : κ} {v : ν} (h : set 
 theorem length_step {cap : Nat} {c : LRU κ ν} (op : Op κ ν) (hc : c.length ≤ cap) :
     (step cap c op).2.length ≤ cap := by
   cases op with
-  | get k =>
-    have := length_get c k
-    unfold step
-    cases hg : get c k with
-    | mk o c' =>
-      rw [hg] at this
-      cases o <;> simp_all
+  | get k => rw [step_get_snd, length_get]; exact hc
   | set k v =>
-    unfold step
     cases hs : set cap c k v with
-    | none => exact hc
-    | some c' => exact length_set hs hc
+    | none => rw [step_set_none hs]; exact hc
+    | some c' => rw [step_set_some hs]; exact length_set hs hc
   | has k => exact hc
   | len => exact hc
 
@@ -288,12 +299,14 @@ theorem length_runOps (cap : Nat) (ops : List (Op κ ν)) : ∀ (c : LRU κ ν),
 
 theorem set_isSome {cap : Nat} (hcap : 0 < cap) (c : LRU κ ν) (k : κ) (v : ν) :
     ∃ c', set cap c k v = some c' := by
-  unfold set
-  by_cases hc : cap ≤ c.length
-  · cases c with
-    | nil => simp at hc; omega
-    | cons q rest => exact ⟨_, by simp [hc]⟩
-  · exact ⟨_, by simp [hc]⟩
+  cases c with
+  | nil =>
+    have : ¬ cap ≤ 0 := by omega
+    exact ⟨put [] k v, by simp [set, this]⟩
+  | cons q rest =>
+    by_cases hc : cap ≤ (q :: rest).length
+    · exact ⟨put rest k v, by simp only [set, hc, if_true]⟩
+    · exact ⟨put (q :: rest) k v, by simp only [set, hc, if_false]⟩
 
 theorem find_set_self {cap : Nat} {c c' : LRU κ ν} {k : κ} {v : ν} (h : set cap c k v = some c') :
     find c' k = some v := by
@@ -311,6 +324,7 @@ theorem find_set_self {cap : Nat} {c c' : LRU κ ν} {k : κ} {v : ν} (h : set 
 /-- all entries are `f`-values (`f` may be partial: failed computations store nothing) -/
 def Inv (f : κ → Option ν) (c : LRU κ ν) : Prop := ∀ p ∈ c, f p.1 = some p.2
 
+omit [DecidableEq κ] in
 theorem inv_nil (f : κ → Option ν) : Inv f ([] : LRU κ ν) := by intro p hp; cases hp
 
 theorem inv_get {f : κ → Option ν} {c : LRU κ ν} (k : κ) (hi : Inv f c) : Inv f (get c k).2 := by
@@ -359,31 +373,24 @@ def SetsAre (f : κ → Option ν) (ops : List (Op κ ν)) : Prop :=
 theorem inv_step {f : κ → Option ν} {cap : Nat} {c : LRU κ ν} (op : Op κ ν) (hi : Inv f c)
     (hs : ∀ k v, op = Op.set k v → f k = some v) : Inv f (step cap c op).2 := by
   cases op with
-  | get k =>
-    have := inv_get k hi
-    unfold step
-    cases hg : get c k with
-    | mk o c' => rw [hg] at this; cases o <;> simpa using this
+  | get k => rw [step_get_snd]; exact inv_get k hi
   | set k v =>
-    unfold step
     cases hset : set cap c k v with
-    | none => exact hi
-    | some c' => exact inv_set hi (hs k v rfl) hset
+    | none => rw [step_set_none hset]; exact hi
+    | some c' => rw [step_set_some hset]; exact inv_set hi (hs k v rfl) hset
   | has k => exact hi
   | len => exact hi
 
 theorem hits_step {f : κ → Option ν} {cap : Nat} {c : LRU κ ν} {k : κ} {v : ν} (hi : Inv f c)
     (h : (step cap c (Op.get k)).1 = Obs.hit v) : f k = some v := by
-  unfold step at h
-  cases hg : get c k with
-  | mk o c' =>
+  rw [step_get_fst] at h
+  cases hg : (get c k).1 with
+  | none => rw [hg] at h; cases h
+  | some v' =>
     rw [hg] at h
-    cases o with
-    | none => cases h
-    | some v' =>
-      simp only [Obs.hit.injEq] at h
-      subst h
-      exact get_value hi (by rw [hg])
+    simp only [Obs.hit.injEq] at h
+    subst h
+    exact get_value hi hg
 
 theorem hits_runOps {f : κ → Option ν} (cap : Nat) (ops : List (Op κ ν)) :
     ∀ (c : LRU κ ν), Inv f c → SetsAre f ops →
@@ -421,7 +428,7 @@ theorem goA_spec {f : κ → Option ν} {cap : Nat} (hcap : 0 < cap) {c : LRU κ
     | some v =>
       obtain ⟨c', hc'⟩ := set_isSome hcap c k v
       simp only [hc']
-      exact ⟨rfl, inv_set hi hf hc'⟩
+      exact ⟨trivial, inv_set hi hf hc'⟩
 
 theorem goB_spec {f : κ → Option ν} {cap : Nat} (hcap : 0 < cap) {c : LRU κ ν} (k : κ) (hi : Inv f c) :
     (getOrComputeB cap f c k).1 = f k ∧ Inv f (getOrComputeB cap f c k).2 := by
@@ -483,6 +490,7 @@ theorem tfind_mem {t : Tbl η α} {n : η} {o : Obj α} (h : tfind t n = some o)
     · simp only [hn, if_true] at h; cases h; subst hn; exact List.mem_cons_self
     · simp only [hn, if_false] at h; exact List.mem_cons_of_mem _ (ih h)
 
+omit [DecidableEq η] in
 theorem tinv_gc {name : α → η} {t : Tbl η α} (keep : η → Bool) (h : TInv name t) : TInv name (tgc keep t) := by
   intro p hp
   exact h p (List.mem_filter.mp hp).1
